@@ -26,7 +26,7 @@ RULE = ('cases = (curve, simplifier, detector, corner threshold, linkage, cluste
         'non-trivial = the final knee list is non-empty (something flowed through every stage)')
 ASSUMPTIONS = ['stages are composed as in demos/*.py; intermediate results of earlier stages are reused across later configurations (purity is C20)',
                'coordinates compared exactly (indexing, no arithmetic)']
-BOUNDS = {'quick': {'curves': 'A n=4 complete, A1 n=5,6, Y013 n=7, trace web0_reduced.csv (62 points)', 'configs': '5 simplifiers x 5 detectors x 3 (corner t, cluster t) x 4 linkages x 4 rankings = 1200', 'trace windows': 'every window of 16 points of web0_reduced.csv and of usr0.csv[::128]'},
+BOUNDS = {'quick': {'curves': 'A n=4 complete, A1 n=5,6, Y013 n=7, trace web0_reduced.csv (62 points)', 'configs': '6 simplifier configurations (min_point_rdp twice: threshold hit / fixed-size fallback) x 5 detectors x 3 (corner t, cluster t) x 4 linkages x 4 rankings = 1440', 'trace windows': 'every window of 16 points of web0_reduced.csv and of usr0.csv[::128]'},
           'thorough': {'curves': 'A n<=5 complete, A1 n=6,7, Y013 n=8, every window of length 12 and 20 of web0_reduced.csv and of usr0.csv[::64]', 'configs': 800}}
 TECHNIQUE = 'bounded-exhaustive exploration of the composed pipeline (all stage configurations) on the real code under the loop monitor; stage-wise subsequence / mapping invariants'
 LEVEL_TEXT = ('Model checking of the composition: every small curve and the bundled trace through all 800 simplifier x detector x filter configurations; completion, '
@@ -45,7 +45,8 @@ def simplifiers(n):
             ('rdp_fixed', {'length': max(n - 1, 2), 'distance': 'shortest', 'order': 'segment'}),
             ('grdp', {'t': 0.01, 'distance': 'shortest', 'cost': 'smape', 'order': 'segment'}),
             ('mp_grdp', {'t': 0.5, 'min_points': max(n - 1, 2), 'distance': 'perpendicular', 'cost': 'rpd', 'order': 'triangle'}),
-            ('min_point_rdp', {'ts': [0.01, 0.001, 0.0001], 'min_points': 3})]
+            ('min_point_rdp', {'ts': [0.01, 0.001, 0.0001], 'min_points': 3}),
+            ('min_point_rdp', {'ts': [0.5, 0.3], 'min_points': max(n - 1, 3)})]
 
 
 def units(tier, seed):
@@ -54,7 +55,7 @@ def units(tier, seed):
     b = curves.bonus(seed, curves.A1)
     plan.append((b.name, 5, 8))
     u = [('curves', prof, n, k, K) for prof, n, K in plan for k in range(K)]
-    for si in range(5):
+    for si in range(6):
         for di in range(5):
             u.append(('trace', 'web0_reduced.csv', 0, 0, 1, si, di))
     if tier == 'thorough':
